@@ -246,6 +246,8 @@ class SpecEval:
     def f_old(self, node, env):
         if env.old is None:
             raise Unsupported("old() outside a postcondition")
+        if "__param_result" in env.locals:
+            return self.eval(node.args[0], Env(env.old, env.old, dict(env.locals, result=env.locals["__param_result"]), env.ex))
         return self.eval(node.args[0], Env(env.old, env.old, env.locals, env.ex))
 
     def f_final(self, node, env):
